@@ -17,6 +17,10 @@ fn conc(sym: &str, map: usize) -> &str {
         ("a", 2) => "😀",
         ("a", 3) => "?",
         ("b", 3) => ".",
+        // NUL and a C0 control as ordinary characters (a seeded index-based rewrite used 0 as its end-of-string sentinel)
+        ("a", 4) => "\u{0}",
+        ("b", 5) => "\u{0}",
+        ("a", 5) => "\u{1}",
         ("b", _) => "b",
         (s, _) => s,
     }
@@ -69,7 +73,7 @@ fn replay(max_t: usize, syms: Vec<String>) {
         for t in &texts {
             let exp = mset.contains(t);
             if has_star && exp && !t.is_empty() { nontrivial += 1; }
-            let nmaps = if syms.iter().any(|s| s == "*") { 1 } else { 4 };
+            let nmaps = if syms.iter().any(|s| s == "*") { 1 } else { 6 };
             for map in 0..nmaps {
                 let ps = render(&p, map);
                 let ts = render(t, map);
@@ -105,7 +109,7 @@ fn cases() {
             let t: Vec<String> = serde_json::from_value(c["t"].clone()).unwrap();
             let exp = c["m"].as_bool().unwrap();
             if exp { nontriv += 1; }
-            for map in 0..3 {
+            for map in [0usize, 1, 2, 4] {
                 evals += 1;
                 let (ps, ts) = (render(&p, map), render(&t, map));
                 let got = call(&ps, &ts, map == 1);
